@@ -17,6 +17,7 @@ import (
 	"github.com/llir/llvm/vhook"
 
 	"verif/fw"
+	"verif/irwalk"
 	"verif/gen"
 )
 
@@ -37,7 +38,7 @@ const c12A = `source_filename = "a.c"
 $c1 = comdat any
 $c2 = comdat largest
 $c10 = comdat nodeduplicate
-@g1 = global i32 7, comdat($c1)
+@g1 = global i32 7, comdat($c1), !foo !0
 @g2 = global i32* @g1, comdat($c2)
 @g10 = global %real 2.5, comdat($c10)
 @h = global double 1.0e+00
@@ -48,7 +49,7 @@ $c10 = comdat nodeduplicate
 define %real @f(%real %x, %t1* %p) #0 {
 entry:
   %y = fadd %real %x, 2.5
-  %z = fadd float %y, 2.5
+  %z = fadd float %y, 2.5, !foo !1
   br label %next
 next:
   %q = phi float [ %z, %entry ]
@@ -82,7 +83,7 @@ const c12B = `source_filename = "b.c"
 %t18446744073709551617 = type { i64, i8 }
 $c1 = comdat largest
 $c2 = comdat any
-@g1 = global i64 7, comdat($c1)
+@g1 = global i64 7, comdat($c1), !foo !0
 @g2 = global i64* @g1, comdat($c2)
 @g10 = global %real 2.5
 @h = global float 1.0e+00
@@ -92,8 +93,8 @@ $c2 = comdat any
 define %real @f(%real %x, %t1* %p) #0 {
 entry:
   %y = fadd %real %x, 2.5
-  %z = fadd double %y, 2.5
-  ret %real %z
+  %z = fadd double %y, 2.5, !foo !1
+  ret %real %z, !foo !0
 }
 define i64 @k(i64) #1 {
   %2 = add i64 %0, 4096
@@ -147,7 +148,7 @@ func c12outcome(parse func() (*ir.Module, error)) string {
 			out = "ERR"
 			return
 		}
-		out = "OK\n" + m.String()
+		out = "OK\n" + m.String() + "\n; structure digest (pointer identity explicit): " + irwalk.Digest(m)
 	})
 	if p != "" {
 		return "PANIC " + p
